@@ -16,6 +16,7 @@ namespace worlds
     int variant = 0;              // 0: standard; 1: different constants and geometry (a "second file")
     bool custom_cs = false; P2 cs0 = {{0,0}}, cs1 = {{1,0}};   // cross section end points in lattice units
     double shift = 0;             // added to every x / longitude in the file (lattice units), e.g. 178 moves a spherical world across the dateline
+    double scale = 1;             // multiplies the lattice unit (e.g. 8: a spherical world spanning +-40 degrees)
   };
 
   inline std::string uniform_grains(const std::string &comps, int n, double a0)
@@ -32,7 +33,7 @@ namespace worlds
   // s: lattice unit (1e5 m cartesian, 1 degree spherical)
   inline std::string rich(const Opt &o)
   {
-    const double s = o.spherical ? 1.0 : 1e5;
+    const double s = (o.spherical ? 1.0 : 1e5) * o.scale;
     const double shift = (o.variant == 1 ? 0.5 : 0.0) + o.shift;
     auto sq = [&](double x0, double x1, double y0, double y1)
     { return pts({{(x0+shift)*s,y0*s},{(x1+shift)*s,y0*s},{(x1+shift)*s,y1*s},{(x0+shift)*s,y1*s}}); };
